@@ -115,6 +115,24 @@ CLAIMED = {
         'strictly increasing mtimes (logical clock); pickle prefix never loads; one entry; the harness scheduler and '
         'its monkeypatched os/pickle/shutil proxies; threads stand for processes.',
    ref='DESIGN.md §4 C18'),
+ 'C09': dict(
+   technique='Coq proof (linear arithmetic for all counts) over accessor expressions regenerated from gi*info.c + correspondence: full API walk and g-ir-generate output against the compiled GIR',
+   text='Theorems (Coq, axiom-free): the 23 closed-form offset expressions of giobjectinfo.c, giinterfaceinfo.c, '
+        'gistructinfo.c, giunioninfo.c, gienuminfo.c are translated from the C source on every run; for ALL counts of '
+        'interfaces/prerequisites (odd or even), fields, embedded callbacks, properties, methods, signals, vfuncs, '
+        'constants, values and every index, each accessor computes exactly the position at which the builder '
+        '(girnode.c, hand model with its ALIGN_VALUE translated) placed that member (C09_object_sections, '
+        'C09_interface_sections, C09_struct_enum_sections, C09_field_walk); for unions only when no field embeds a '
+        'callback (C09_union_sections; the accessor has no walk). Tie: generated namespaces over all container kinds are '
+        'compiled by the real compiler, walked through the whole public API by a C driver (every count, i-th accessor, '
+        'flag, type, attribute by iteration and by name) and compared line by line with the description derived from the '
+        'GIR; g-ir-generate output is parsed and compared with the same API (names, order of parameters, flags). '
+        'Separating accessor faults from compiler faults by an independent decoder is C06\'s part. Three API-side '
+        'defects and four compiler-side defects found and fixed.',
+   note='Trusted: Coq kernel+VM; cexpr translator and the textual recognition of the field-walk loops; hand model of '
+        'the builder layout; cshim; harness/girgen.py expectation (semantics of GIR attributes as implemented by '
+        'girparser.c, reviewed case by case); types in g-ir-generate output not compared.',
+   ref='DESIGN.md §4 C09'),
 }
 
 PLANNED = {}
